@@ -281,7 +281,7 @@ fn bval_strategy() -> impl Strategy<Value = (u8, i8)> {
     (0u8..8, -2i8..=2)
 }
 
-fn resolve_b(b: (u8, i8), len: u64, bytes: u64) -> u64 {
+pub fn resolve_b(b: (u8, i8), len: u64, bytes: u64) -> u64 {
     let base = match b.0 {
         0 => 0,
         1 => len,
@@ -304,7 +304,7 @@ pub struct AbsReq {
     pub upgrade: Option<((u8, i8), (u8, i8))>,
 }
 
-fn absreq_strategy() -> impl Strategy<Value = AbsReq> {
+pub fn absreq_strategy() -> impl Strategy<Value = AbsReq> {
     (
         prop::option::weighted(0.5, (bval_strategy(), bval_strategy())),
         prop::option::weighted(0.3, (bval_strategy(), bval_strategy())),
